@@ -29,7 +29,7 @@ META = {
         "symmetries.calc_phase_permutation",
     ],
     "floors": {
-        "quick": {"evaluations": 4000, "distinct_nontrivial": 800, "tables": {"op/tensordot": 1500, "op/transpose": 500, "op/matmul": 150, "op/trace": 100, "op/einsum": 150, "parity/odd-involved": 500, "feature/multi-label-operand": 300, "feature/nested-conjugate-labels": 40, "feature/sector-with->=6-odd-contracted": 300, "feature/sectors>2048": 30, "feature/both-operands>2048-sectors": 5}},
+        "quick": {"evaluations": 4000, "distinct_nontrivial": 800, "tables": {"op/tensordot": 1500, "op/transpose": 500, "op/matmul": 150, "op/trace": 100, "op/einsum": 150, "parity/odd-involved": 500, "feature/multi-label-operand": 300, "feature/nested-conjugate-labels": 40, "feature/sector-with->=6-odd-contracted": 300, "feature/sectors>2048": 30, "feature/both-operands>2048-sectors": 5, "feature/left-operand-dense-size>=2**22": 8}},
         "thorough": {"evaluations": 200000, "distinct_nontrivial": 40000, "tables": {"op/tensordot": 80000, "op/transpose": 20000}},
     },
     "exhaustive": {"quick": False, "thorough": False},
@@ -272,6 +272,30 @@ def case_many_sectors(ctx, rng):
     if rng.random() < 0.5:
         a, b, axa, axb = b, a, axb, axa
     check_contract(ctx, a, b, axa, axb, rng.choice(["fused", "blockwise", "auto", "default"]), "many-sectors")
+
+
+def case_huge_dense(ctx, rng):
+    """A left operand of >= 2**22 dense elements built from ordinary small blocks (11-12 legs of
+    total size 4), contracted over 2-3 legs listed in arbitrary order with a small partner."""
+    sr = ctx.sr
+    sym = rng.choice(["Z2", "Z2", "U1"])
+    nleg = rng.choice([11, 11, 12])
+    cs = rng.sample(gen.POOL[sym], 2)
+    mk = lambda: sr.BlockIndex({c: 2 for c in sorted(cs)}, dual=rng.random() < 0.5)
+    ia = [mk() for _ in range(nleg)]
+    ncon = rng.randint(2, 3)
+    axa = rng.sample(range(nleg), ncon)
+    ib = [gen.conj_index(sr, ia[i]) for i in axa] + [gen.rand_index(sr, rng, sym, maxc=2, maxd=1) for _ in range(rng.randint(0, 1))]
+    order = rng.sample(range(len(ib)), len(ib))
+    ib2 = [ib[k] for k in order]
+    axb = [order.index(k) for k in range(ncon)]
+    vals = gen.Values(rng, "int", "float64")
+    a = gen.make_array(sr, rng, sym, ia, fermionic=True, values=vals, kind="static", sparsity=0.0, nphase=0, label=7, exotic=False)
+    b = gen.make_array(sr, rng, sym, ib2, fermionic=True, values=vals, kind="static", sparsity=0.0, nphase=rng.choice([0, 1]), label=3, exotic=False)
+    if not a.blocks or not b.blocks:
+        return
+    ctx.count("feature", "left-operand-dense-size>=2**22")
+    check_contract(ctx, a, b, axa, axb, rng.choice(["fused", "blockwise", "auto", "default"]), "huge-dense")
 
 
 def case_matmul(ctx, rng):
@@ -525,6 +549,8 @@ def run(ctx):
         ctx.run_case(case_many_legs, ctx, rng)
     for _, rng in ctx.cases("many-sectors", ctx.budget(48, 800)):
         ctx.run_case(case_many_sectors, ctx, rng)
+    for _, rng in ctx.cases("huge-dense", ctx.budget(12, 120)):
+        ctx.run_case(case_huge_dense, ctx, rng)
     for _, rng in ctx.cases("matmul", ctx.budget(20000, 300000)):
         ctx.run_case(case_matmul, ctx, rng)
     for _, rng in ctx.cases("trace", ctx.budget(15000, 200000)):
